@@ -989,7 +989,7 @@ class SupportGenerator(CodeGenerator):
             self._handle_overwrite(target, allow_overwrite)
             target.parent.mkdir(parents=True, exist_ok=True)
             if len(line_pps) == 0:
-                shutil.copy(str(resource), str(target))
+                shutil.copyfile(str(resource), str(target))
             else:
                 _reset_line_post_processors(line_pps)
                 self._copy_header_using_line_pps(resource, target, line_pps)
